@@ -1421,3 +1421,40 @@ package larking
 //@   ensures [client-half-close-reaches-the-backend C10] inErr == io.EOF ==> closes == 1
 //@   loop 1 invariant closes == 0
 //@   witness verifWitnessProxyHalfClose for client-half-close
+
+// ---------------------------------------------------------------------------
+// server.go: mount prefixes (C20, the registration discipline only: what
+// http.ServeMux and http.StripPrefix do with the patterns is library behaviour).
+// "A request to prefix+path under any configured mount prefix is served exactly
+// as path is served by the bare mux": for a configured pattern, with P the
+// pattern without its final "/", the mux is mounted on the subtree pattern P+"/"
+// behind a handler that strips exactly P; an empty P mounts the mux itself on "/".
+// "Handlers added with HTTPHandlerOption keep receiving their own patterns": the
+// ServeMux the options filled is the one that is served.
+//@ func NewServer serves C20 partial ghost count post inv.init inv.keep
+//@   returns (srv, err)
+//@   count strips `http.StripPrefix(`
+//@   count submounts `h.Handle(prefix`
+//@   loop 2 invariant strips == submounts
+//@   assert atcall `http.StripPrefix(` [the-stripped-prefix-is-the-mount-pattern-without-its-final-slash C20]
+//@        (hassuffix(pattern, "/") ==> arg0 == pattern[:len(pattern)-1]) && (!hassuffix(pattern, "/") ==> arg0 == pattern)
+//@   assert atcall `http.StripPrefix(` [a-stripping-handler-only-for-a-non-empty-prefix C20] len(arg0) > 0
+//@   assert atcall `http.StripPrefix(` [the-mounted-handler-is-the-mux C20] pay(arg1) == mux && mux != nil
+//@   assert atcall `h.Handle(` #1 [the-mount-covers-the-subtree-below-its-prefix C20]
+//@        len(arg1) >= 2 && arg1[len(arg1)-1] == '/' && (hassuffix(pattern, "/") ==> arg1 == pattern)
+//@        && (!hassuffix(pattern, "/") ==> arg1[:len(arg1)-1] == pattern)
+//@   assert atcall `h.Handle(` #1 [the-subtree-is-served-by-the-stripping-handler C20] strips == submounts + 1
+//@   assert atcall `h.Handle(` #2 [the-root-mount-is-the-mux-itself C20] arg1 == "/" && pay(arg2) == mux && mux != nil && (len(pattern) == 0 || pattern == "/")
+//@   ghost at "if h == nil {" sm = h
+//@   assert at "if h == nil {" [the-mux-the-options-filled-is-taken C20] h == svrOpts.serveMux
+//@   assert atcall `h.Handle(` [extra-handlers-stay-on-the-served-mux C20] sm != nil ==> arg0 == sm
+//@   ensures [a-nil-mux-is-refused C20] mux == nil ==> err != nil && srv == nil
+//@   witness verifWitnessMountPrefix
+//@ func MuxHandleOption$1 serves C20 partial ghost post
+//@   returns (err)
+//@   ensures [mount-patterns-are-configured-once C20] old(opts.muxPatterns) != nil ==> err != nil
+//@   ensures [the-configured-patterns-are-the-ones-mounted C20] err == nil ==> same(opts.muxPatterns, patterns)
+//@   witness verifWitnessMountPrefix
+//@ func HTTPHandlerOption$1 serves C20 partial ghost
+//@   assert atcall `opts.serveMux.Handle(` [an-extra-handler-is-registered-under-its-own-pattern C20] arg1 == pattern && arg2 == handler
+//@   witness verifWitnessMountPrefix
